@@ -75,6 +75,7 @@ type worldJ struct {
 	Probe         bool           `json:"probe,omitempty"`
 	AllViews      bool           `json:"allViews,omitempty"`  // reference images for every directory of the tree, both modes
 	ReadChunk     int            `json:"readChunk,omitempty"` // deliver request bytes to the server in pieces of at most this size
+	Quiesce       bool           `json:"quiesce,omitempty"`   // after all connections ended: report leftover goroutines / handles
 	LogOps        bool           `json:"logOps,omitempty"`
 }
 
@@ -102,18 +103,19 @@ func (e *emitter) emit(v interface{}) {
 }
 
 type sessionEnv struct {
-	pt      *protoTable
-	w       *world
-	wj      *worldJ
-	ledger  *ledgerFs
-	ln      *memListener
-	reg     *registry
-	em      *emitter
-	lastFP  string
-	srvErr  chan error
-	index   int
-	viewGen int
-	chunkNo int
+	pt       *protoTable
+	w        *world
+	wj       *worldJ
+	ledger   *ledgerFs
+	ln       *memListener
+	reg      *registry
+	em       *emitter
+	lastFP   string
+	srvErr   chan error
+	index    int
+	viewGen  int
+	chunkNo  int
+	chunkTag map[string]byte
 }
 
 func cmdSession(args []string) error {
@@ -299,6 +301,22 @@ func runWorld(pt *protoTable, wj *worldJ, em *emitter, index int) error {
 	if wj.Probe {
 		env.probe()
 	}
+	if wj.Quiesce {
+		// every connection of this world has ended: nothing may be left behind
+		deadline := time.Now().Add(3 * time.Second)
+		for time.Now().Before(deadline) && (serveConnGoroutines() > 0 || ledger.OpenCount(-1) > 0) {
+			time.Sleep(5 * time.Millisecond)
+		}
+		if os.Getenv("VERIFH_DEBUG") != "" && serveConnGoroutines() > 0 {
+			var buf bytes.Buffer
+			pprof.Lookup("goroutine").WriteTo(&buf, 2)
+			fmt.Fprintln(os.Stderr, buf.String())
+			buf.Reset()
+			pprof.Lookup("goroutine").WriteTo(&buf, 1)
+			fmt.Fprintln(os.Stderr, buf.String())
+		}
+		em.emit(map[string]interface{}{"ev": "Quiesce", "gor": serveConnGoroutines(), "open": ledger.OpenCount(-1), "paths": nonNil(ledger.OpenPaths())})
+	}
 	if wj.Sentinel {
 		after, _ := w.sentinelDigest()
 		em.emit(map[string]interface{}{"ev": "Sentinel", "same": after == sentBefore})
@@ -449,8 +467,17 @@ func (env *sessionEnv) buildFrame(r *reqJ) ([]byte, map[string]interface{}, erro
 			}
 			follow = b
 		} else {
-			env.chunkNo++
-			follow = chunkBytes(r.Chunk, r.Plen, byte(env.chunkNo%255+1))
+			// the same chunk name always means the same bytes (and first byte) within a world
+			if env.chunkTag == nil {
+				env.chunkTag = map[string]byte{}
+			}
+			tag, ok := env.chunkTag[r.Chunk]
+			if !ok {
+				env.chunkNo++
+				tag = byte(env.chunkNo%255 + 1)
+				env.chunkTag[r.Chunk] = tag
+			}
+			follow = chunkBytes(r.Chunk, r.Plen, tag)
 		}
 		if len(follow) > 0 {
 			env.reg.add(&memSource{name: r.Chunk, data: follow})
@@ -603,6 +630,8 @@ func (env *sessionEnv) doFrame(c *memConn, cj *connJ, fr frame) bool {
 
 func (env *sessionEnv) exchange(c *memConn, cj *connJ, op string, req map[string]interface{}, frameBytes []byte, hint *int64) bool {
 	env.ledger.SetOwner(cj.ID)
+	faultsBefore := env.ledger.FaultsApplied()
+	opsBefore := env.ledger.OpCount()
 	c.Send(frameBytes)
 	quiet := c.WaitQuiescent(60 * time.Second)
 	incomplete := op == "TRUNCATED"
@@ -642,7 +671,8 @@ func (env *sessionEnv) exchange(c *memConn, cj *connJ, op string, req map[string
 		resp["runs"] = runs
 	}
 	ev := map[string]interface{}{"ev": "Req", "c": cj.ID, "req": req, "resp": resp, "closed": closed,
-		"hang": !quiet, "consumed": c.Consumed(), "pending": c.Pending()}
+		"hang": !quiet, "consumed": c.Consumed(), "pending": c.Pending(),
+		"faults": env.ledger.FaultsApplied() - faultsBefore, "fsops": env.ledger.OpCount() - opsBefore}
 	nodes, fp, err := env.w.snapshot()
 	if err != nil {
 		ev["mut"] = true
@@ -686,6 +716,8 @@ func (env *sessionEnv) endConn(c *memConn, cj *connJ) {
 		return
 	case "reset":
 		c.ClientReset()
+	case "timeout":
+		// stay silent: the server's read deadline must end the connection
 	default:
 		c.ClientClose()
 	}
@@ -713,5 +745,5 @@ func (env *sessionEnv) probe() {
 func serveConnGoroutines() int {
 	var buf bytes.Buffer
 	pprof.Lookup("goroutine").WriteTo(&buf, 1)
-	return strings.Count(buf.String(), ".serveConn")
+	return strings.Count(buf.String(), ").serveConn") // method of (*Server[...]); not this function's own name
 }
